@@ -23,7 +23,7 @@ ASSUMPTIONS = ["reaction table written from RFC 7252 section 4 and RFC 7967, ind
                "CON requests addressed to a multicast group are not generated (peer misbehaviour the statement does not cover)"]
 EXPECTED_PROBES = ["token_reused_after_completed_exchange", "duplicated_request", "ping", "piggyback", "empty_ack_then_separate", "handler_at_delay_minus_eps", "handler_at_delay_plus_eps",
                    "matched_con_response", "unmatched_con_response_unicast", "unmatched_con_response_multicast",
-                   "no_response_suppressed", "misfit", "request_to_multicast", "reliable_to_multicast", "boundary_message_id", "ipv4_mapped"]
+                   "no_response_suppressed", "misfit", "request_to_multicast", "reliable_to_multicast", "boundary_message_id", "ipv4_mapped", "peer_request_under_endpoints_next_token"]
 
 DELAY = 0.1
 HANDLERS = {"fast": 0.0, "pre": DELAY - 1e-3, "post": DELAY + 1e-3, "slow": 0.5}
@@ -86,6 +86,15 @@ def gen(r, tier):
             if op["cls"] == "request" and op.get("dst") == "uni" and r.chance(0.25):
                 # the network duplicates the request datagram; the copy arrives a little later
                 ops.append({"op": "dup", "of_t": op["t"], "t": round(op["t"] + r.choice([0.0, 0.01, 0.05, 0.095, 0.105, 0.3, 1.0]), 4)})
+    if r.chance(0.2):
+        # both roles at once: the peer's confirmable request carries the very token the endpoint will give its own next
+        # request to that peer (the two directions choose tokens independently), and that request follows while the
+        # peer's one is still unacknowledged / being handled
+        t0 = round(r.uniform(0, t + 1), 4)
+        ops.append({"op": "inject", "t": t0, "type": "CON", "cls": "request", "code": rc.GET, "dst": "uni",
+                    "handler": r.choice(["pre", "post", "slow", "slowraise", "slowret5"]), "no_response": None, "token": "own_next"})
+        ops.append({"op": "request", "t": round(t0 + r.choice([0.006, 0.02, 0.05, 0.2]), 4), "target": "peer",
+                    "tuning": r.choice([None, "Unreliable"])})
     ops.sort(key=lambda o: o["t"])
     inj = [o for o in ops if o["op"] == "inject"]
     if inj and r.chance(0.3):
@@ -224,11 +233,18 @@ def execute(sim, scn):
         target = ("[%s]" % peer.addr[0]) if op["target"] == "peer" else "[%s]" % MCAST
         tun = {"Reliable": Reliable, "Unreliable": Unreliable}.get(op["tuning"])
         msg = Message(code=GET, uri="coap://%s/q%d" % (target, i), transport_tuning=tun() if tun else None)
+        own_issued[0] += 1
         tracker.start(i, ctx, msg, handle_blockwise=False)
         if op["target"] == "mcast":
             sim.probe("request_to_multicast")
             if op["tuning"] == "Reliable":
                 sim.probe("reliable_to_multicast")
+
+    own_issued = [0]
+
+    def next_own_token():
+        v0 = [d for d in sim.draws["tm"].log if d[0] == "randint"][0][3]
+        return ((v0 + own_issued[0] + 1) % (2 ** 64)).to_bytes(8, "big").lstrip(b"\0")
 
     def do_inject(i, op):
         mid = op.get("mid", 0x8000 + i)
@@ -242,6 +258,9 @@ def execute(sim, scn):
                 token = cand[0]["token"]
         elif op["cls"] == "empty":
             token = b""
+        if op.get("token") == "own_next":
+            token = next_own_token()
+            sim.probe("peer_request_under_endpoints_next_token")
         opts = []
         payload = b""
         if op["cls"] == "request":
